@@ -135,3 +135,14 @@ theorem mono_mul (n j k : ℤ) (h : 0 ≤ j ∧ j ≤ k ∧ 2 * k ≤ n) : C n j
   exact_mod_cast this
 
 end PiquassoLemmas
+
+namespace PiquassoLemmas
+
+open scoped ComplexOrder in
+/-- congruence preserves positive semidefiniteness: used for the uncertainty relation
+    `σ + iħΩ ≥ 0 ⇒ S(σ + iħΩ)Sᴴ ≥ 0` (C08) -/
+theorem psd_congr {n : Type*} [Fintype n] [DecidableEq n] (M S : Matrix n n ℂ) (h : M.PosSemidef) :
+    (S * M * S.conjTranspose).PosSemidef :=
+  h.mul_mul_conjTranspose_same S
+
+end PiquassoLemmas
